@@ -1144,6 +1144,9 @@ def sx_getitem(a, i):
                 return a[i]
         return _select(a, i)
     if ta is dict and isinstance(i, SymInt):
+        n = len(a)
+        if all(k in a for k in range(n)):        # dense integer keys 0..n-1: same as a list
+            return _select([a[k] for k in range(n)], i)
         return a[concretize(i)]
     return a[i]
 
@@ -1161,6 +1164,12 @@ def _select(a, i):
         for k, v in reversed(vals[:-1]):
             r = ite(i == k, v, r)
         return r
+    B = _bits_cls()
+    if B is not None and all(isinstance(v, B) for _, v in vals) and len(set(v.size for _, v in vals)) == 1:
+        r = vals[-1][1].ival
+        for k, v in reversed(vals[:-1]):
+            r = ite(i == k, v.ival, r)
+        return B(r, vals[0][1].size)
     return a[concretize(i)]
 
 
@@ -1280,7 +1289,46 @@ class sx_codecs(object):
         return sx_codecs._real.decode(data, enc, *a)
 
 
+def truth(c):
+    "python truth value of c as bool or SymBool (no forking)"
+    if isinstance(c, SymBool):
+        return c
+    if isinstance(c, SymInt):
+        return c != 0
+    if isinstance(c, (bool, builtins.int)) or c is None:
+        return bool(c)
+    return bool(c)
+
+
+def _bits_cls():
+    import sys
+    m = sys.modules.get('crysp.bits')
+    return getattr(m, 'Bits', None) if m is not None else None
+
+
+def merge(c, a, b):
+    "ite over ints and crysp Bits of equal size"
+    if isinstance(c, bool):
+        return a if c else b
+    B = _bits_cls()
+    if B is not None and isinstance(a, B) and isinstance(b, B):
+        if a.size != b.size:
+            raise Leak('merge of Bits of different sizes')
+        return B(ite(c, a.ival, b.ival), a.size)
+    if a is b:
+        return a
+    return ite(c, a, b)
+
+
+def sx_ite(test, fa, fb):
+    "if-converted `if test: x = fa() else: x = fb()`"
+    c = truth(test)
+    if isinstance(c, bool):
+        return fa() if c else fb()
+    return merge(c, fa(), fb())
+
+
 SHIMS = dict(isinstance=sx_isinstance, int=sx_int, bytes=sx_bytes, bytearray=sx_bytearray,
              abs=sx_abs, min=sx_min, max=sx_max, sum=sx_sum, divmod=sx_divmod, range=sx_range,
              hex=sx_hex, bin=sx_bin, chr=sx_chr, ord=sx_ord, float=sx_float,
-             __sx_getitem__=sx_getitem, __sx_setitem__=sx_setitem, __sx_join__=sx_join)
+             __sx_getitem__=sx_getitem, __sx_setitem__=sx_setitem, __sx_join__=sx_join, __sx_ite__=sx_ite)
